@@ -237,3 +237,51 @@ LEVEL_NOTE = ("documented degrees transcribed from the docstrings; only straight
 TECHNIQUE = "finite-table enumeration + property-based testing (Hypothesis) vs closed-form integrals and dense eigensolve"
 DESIGN_REF = "DESIGN.md 4/C07"
 READY = True
+
+
+# ------------------------------------------------------------------------------------------
+# (added) every rule of a shape requested by its point count on a mesh: Integrate_e(f, nPg) / Get_weightedJacobian_e_pg(nPg) -
+# the rules with negative weights (5-point tetrahedron, 8-point prism) are only reachable this way
+
+
+def enum_mesh_rules(tier):
+    para = [[0.0, 0.0], [2.0, 0.0], [2.5, 1.0], [0.5, 1.0]]
+    for et in gm.T2D + gm.T3D:
+        shape = orc.shape_of(et)
+        d3 = et in gm.T3D
+        r = dict(verts=para, h=1.0, elemType=et, organised=True, extrude=[0.2, 0.1, 1.0] if d3 else None, layers=2 if d3 else 0,
+                 A=[[1.1, 0.3, 0.1], [-0.2, 0.9, 0.2], [0.1, -0.1, 1.2]] if d3 else [[1.1, 0.3], [-0.2, 0.9]],
+                 b=[0.3, -0.2, 0.1] if d3 else [0.3, -0.2], perm=None, orphans=0)
+        for n in sorted(DOC[shape]):
+            yield dict(recipe=r, nPg=n)
+
+
+def check_mesh_rules(case, rec):
+    r, nPg = case["recipe"], int(case["nPg"])
+    mesh = gm.build(r)
+    types = gm.mesh_types(mesh)
+    sig = dict(elemType=r["elemType"], types=types, nPg=nPg)
+    rec.label(f"meshrule:{orc.shape_of(r['elemType'])}{nPg}")
+    one = lambda x, y, z: 1.0 + 0 * x  # noqa
+    sgn = np.sign(gm.exact_integral(r, one, 0))
+    ex_meas = abs(gm.exact_integral(r, one, 0))
+    ex_m1 = np.array([sgn * gm.exact_integral(r, lambda x, y, z, i=i: (x, y, z)[i], 1) for i in range(3)])
+    diam = np.ptp(mesh.coord, axis=0).max() + np.abs(mesh.coord).max()
+    meas, m1, wsum, wmin = 0.0, np.zeros(3), 0.0, np.inf
+    for g in gm.main_groups(mesh):
+        meas += float(np.sum(g.Integrate_e(one, nPg)))
+        m1 += np.array([float(np.sum(g.Integrate_e(lambda x, y, z, i=i: (x, y, z)[i] + 0 * x, nPg))) for i in range(3)])
+        wJ = np.asarray(g.Get_weightedJacobian_e_pg(nPg), float)
+        wsum += float(wJ.sum())
+        wmin = min(wmin, float(np.asarray(Gauss(g.elemType, nPg).weights).min()))
+    rec.label("negative_weight" if wmin < 0 else "positive_weights")
+    rec.close(meas - ex_meas, ex_meas, TOL * 10, "rule_measure", f"{types}: Integrate_e(1, {nPg}) = {meas!r} vs measure {ex_meas!r}", **sig)
+    rec.close(wsum - ex_meas, ex_meas, TOL * 10, "rule_weighted_jacobian",
+              f"{types}: sum of Get_weightedJacobian_e_pg({nPg}) = {wsum!r} vs measure {ex_meas!r}", **sig)
+    rec.close(m1 - ex_m1, ex_meas * diam, TOL * 10, "rule_first_moment",
+              f"{types}: first moments with the {nPg}-point rule {m1} vs {ex_m1} (affine elements)", **sig)
+    rec.nontrivial(mesh.Ne >= 2)
+
+
+SUBS.append(Sub("mesh_rules", check_mesh_rules, enum=enum_mesh_rules,
+                doc="every documented rule of each shape requested by point count on an affine mesh of each element type"))
